@@ -606,10 +606,8 @@ impl MetaData<'_> {
     /// Check for alignment and overlap
     fn valid(&self, m: &MetaSize) -> bool {
         fn overlap(a: Range<*const u8>, b: Range<*const u8>) -> bool {
-            a.contains(&b.start)
-                || a.contains(&unsafe { b.end.sub(1) })
-                || b.contains(&a.start)
-                || b.contains(&unsafe { a.end.sub(1) })
+            // Note: empty ranges do not overlap with anything
+            a.start < b.end && b.start < a.end && !a.is_empty() && !b.is_empty()
         }
         self.local.len() >= m.local
             && self.trees.len() >= m.trees
